@@ -49,12 +49,28 @@ class OpenModel:
             if not isinstance(buf, Ref):
                 raise EngineError('read() into %r' % (buf,))
             hdr = Struct([Struct([self.m0, self.m1]), self.seg, self.ver, self.gen])
-            old = ex.deref(st, buf) if False else None
+            try:
+                old = ex.deref(st, buf)
+            except EngineError:
+                old = None
             # the buffer holds the header only when the read delivered all 16 bytes; otherwise it stays uninitialised
             st.pc.append(z3.And(self.nread >= -1, self.nread <= args[2]))       # POSIX: at most `count` bytes
             s_full = st.fork(); s_full.pc.append(self.nread == 16)
             ex.store(s_full, buf.frame, (buf.local, buf.path), hdr)
             s_part = st; s_part.pc.append(self.nread != 16)
+            if isinstance(old, Struct) and len(old.f) == 4 and isinstance(old.f[0], Struct) and all(isinstance(x, z3.ExprRef) for x in list(old.f[0].f) + list(old.f[1:])):
+                # the buffer was initialised before the call (e.g. zeroed): a short read overwrites its first `nread` bytes only
+                # (little endian: a partly covered field keeps its high bytes)
+                n = z3.If(self.nread < 0, z3.IntVal(0), self.nread)
+
+                def mix(new, oldv, start, size):
+                    v = z3.If(n >= start + size, new, oldv)
+                    for k in range(1, size):
+                        m_ = 256 ** k
+                        v = z3.If(n == start + k, new % m_ + (oldv / m_) * m_, v)
+                    return v
+                part = Struct([Struct([mix(self.m0, old.f[0].f[0], 0, 4), mix(self.m1, old.f[0].f[1], 4, 4)]), mix(self.seg, old.f[1], 8, 4), mix(self.ver, old.f[2], 12, 2), mix(self.gen, old.f[3], 14, 2)])
+                ex.store(s_part, buf.frame, (buf.local, buf.path), part)
             s_part.mem[('env', 'errno')] = self.e_read
             s_full.mem[('env', 'errno')] = self.e_read
             return [(s_full, self.nread), (s_part, self.nread)]
@@ -112,7 +128,9 @@ class OpenModel:
 
         def h_fence(ex, st, callee, args, fn):
             return UNIT
-        return [(r'read_volatile$|ptr::read$', h_read_rec), (r'(^|::)(fence|compiler_fence)$', h_fence), (r'^libc::open$|(^|::)open$', h_open), (r'^libc::read$', h_read), (r'^libc::mmap$', h_mmap), (r'^libc::close$', h_close), (r'^libc::munmap$', h_munmap),
+        def h_zeroed(ex, st, callee, args, fn):
+            return Struct([Struct([Struct([z3.IntVal(0), z3.IntVal(0)]), z3.IntVal(0), z3.IntVal(0), z3.IntVal(0)])])
+        return [(r'MaybeUninit::<(shm_header::)?ShmHeader>::zeroed$', h_zeroed), (r'read_volatile$|ptr::read$', h_read_rec), (r'(^|::)(fence|compiler_fence)$', h_fence), (r'^libc::open$|(^|::)open$', h_open), (r'^libc::read$', h_read), (r'^libc::mmap$', h_mmap), (r'^libc::close$', h_close), (r'^libc::munmap$', h_munmap),
                 (r'(^|::)errno::errno$|^errno$', h_errno), (r'<impl str>::as_bytes$', h_as_bytes), (r'CStr::from_bytes_with_nul$', h_from_bytes),
                 (r'Atomic(::<\w+>)?::into_inner$', h_into_inner), (r'Atomic(::<\w+>)?::load$', h_atomic_load), (r'(^|::)CStr::as_ptr$', lambda ex, st, c, a, f: Opaque('cptr'))]
 
@@ -342,6 +360,10 @@ def check_c16(tier, seed):
     conv = conversions(ck, prog, seed)
     # ---- the file the daemon re-creates
     wipe_image(ck, prog, seed)
+    try:
+        wipe_crash_part(ck, prog, seed)
+    except EngineError as e:
+        ck.inconclusive.append('crash inside wipe(): %s' % e)
     if tier == 'thorough':
         kani_bytes(ck)
     ck.cov['stubs'] = ['libc::open/read/mmap/close/munmap and errno: environment; each call may fail with an arbitrary errno; read returns -1..16',
@@ -370,6 +392,69 @@ def kani_bytes(ck):
         ck.inconclusive.append('Kani byte-level harness %s failed: %s (engine M\'s typed model is the deciding check; no native replay is wired for Kani traces of this harness)' % (h, r.get('failed_checks')))
     else:
         ck.inconclusive.append('Kani byte-level harness %s: %s %s' % (h, r['verdict'], r.get('out', '')[-200:]))
+
+
+def wipe_crash_part(ck, prog, seed):
+    """the daemon dies INSIDE wipe() (any prefix of its file writes), over any file the start-up judged unusable: what is left must
+    not be a segment clients can open - otherwise they read a record nobody published.  File model: create (truncating or not, as
+    the code asks), then sequential writes; a crash keeps the bytes written so far (and, without truncation, the old bytes behind)."""
+    B = z3.Bool
+    flags = {k: z3.BoolVal(True) for k in ('mkdir', 'create', 'w0', 'w1', 'w2', 'w3', 'w4', 'wall', 'pos', 'sync')}
+    outs, ex, _sz = _run_wipe(prog, flags)
+    if outs is None:
+        ck.inconclusive.append('crash inside wipe(): wipe() not executable by engine M (%s)' % ex)
+        return
+    pr = Prover(seed); pr.add(ex.side)
+    I = z3.Int
+    pm0, pm1, pseg, pver, pgen, plen = I('prior_m0'), I('prior_m1'), I('prior_segsize'), I('prior_version'), I('prior_generation'), I('prior_len')
+    kcr = I('crash_after_writes')
+    dom = [pm0 >= 0, pm0 < 2 ** 32, pm1 >= 0, pm1 < 2 ** 32, pseg >= 0, pseg < 2 ** 32, pver >= 0, pver < 65536, pgen >= 0, pgen < 65536, plen >= 0, plen <= 4096]
+    valid = lambda m0, m1, seg, ver, gen, ln: z3.And(ln >= 16, m0 == MAGIC0, m1 == MAGIC1, ver != 0, gen != 0, seg >= 72)
+    prior_unusable = z3.Not(valid(pm0, pm1, pseg, pver, pgen, plen))
+    rp = common.Replay('debug')
+    stats = [0, 0]
+    n = 0
+    for o in outs:
+        v = o.value
+        if o.kind != 'return' or not ('Ok' in v.p and 'Err' not in v.p):
+            continue
+        ws = [e for e in o.state.trace if e.kind == 'file_write']
+        cre = [e for e in o.state.trace if e.kind == 'file_create']
+        if not (len(ws) >= 5 and [w.args[0] for w in ws[:5]] == [4, 4, 4, 2, 2] and len(cre) == 1):
+            ck.inconclusive.append('crash inside wipe(): the write sequence is not the 4+4+4+2+2 header followed by the body'); continue
+        n += 1
+        trunc = 'truncate' in cre[0].args
+        sizes = [4, 4, 4, 2, 2] + [w.args[0] if isinstance(w.args[0], int) else 56 for w in ws[5:]]
+        new = [w.args[1] for w in ws[:5]]
+        wb = z3.Sum([z3.If(kcr > i, z3.IntVal(sz) if isinstance(sz, int) else sz, 0) for i, sz in enumerate(sizes)])
+        ln = wb if trunc else z3.If(plen >= wb, plen, wb)
+        prior = [pm0, pm1, pseg, pver, pgen]
+        fld = [z3.If(kcr > i, new[i], prior[i]) for i in range(5)]
+        left_valid = valid(fld[0], fld[1], fld[2], fld[3], fld[4], ln)
+
+        def confirm(m, trunc=trunc):
+            stats[0] += 1
+            import struct
+            k_ = mval(m, kcr)
+            limit = sum(sizes[:k_]) if k_ <= len(sizes) else 72
+            body = struct.pack('<qqqqqIIiI', 11, 12, 13, 14, 15, 16, 0, 1, 0)
+            priorb = (struct.pack('<IIIHH', mval(m, pm0), mval(m, pm1), mval(m, pseg), mval(m, pver), mval(m, pgen)) + body)[:max(0, mval(m, plen))]
+            if len(priorb) < mval(m, plen):
+                priorb += b'\x11' * (min(mval(m, plen), 200) - len(priorb))
+            out = rp.ask('wipecrash %s %d' % (priorb.hex(), limit))
+            f = dict(x.split('=', 1) for x in out.split()[1:] if '=' in x)
+            if out.startswith('ok') and f.get('reader', '').startswith('Ok'):
+                stats[1] += 1
+                ck.violation('crash-inside-wipe', 'the daemon starts over an unusable file (%d bytes, header %s), is cut short inside wipe() after %d bytes were written, and leaves a file that clients open successfully (%s): they read a record nobody published'
+                             % (len(priorb), priorb[:16].hex(), limit, f.get('reader')), {'cmd': 'wipecrash %s %d' % (priorb.hex(), limit), 'native': out})
+                return 'wipe-crash'
+            return None
+        pr.prove_cegar('wipe() path %d (%s): whatever unusable file was there and wherever wipe() is cut short, the file left behind cannot be opened by clients' % (n, 'truncating create' if trunc else 'create without truncation'),
+                       z3.And(o.state.pcond(), prior_unusable, kcr >= 0, kcr <= len(sizes), *dom), z3.Not(left_valid), confirm, lambda m: [],
+                       hints=[[plen == 72, pver == 1, pgen == 2, pseg == 72]])
+    rp.close()
+    ck.absorb(pr, 'wipe crash: ')
+    ck.cov['wipe_crash'] = {'paths': n, 'counterexamples_replayed': stats[0], 'confirmed': stats[1]}
 
 
 def conversions(ck, prog, seed):
@@ -426,11 +511,12 @@ def confirm_recreate(ck, pr=None):
     return bad
 
 
-def wipe_image(ck, prog, seed):
-    """execute ShmWriter::wipe over a file model and decode the bytes it writes"""
+def _run_wipe(prog, flags, has_parent=None, parent_str=None, parent_empty=None):
+    """ShmWriter::wipe over the file model; returns (outcomes, executor, segsize variable) or (None, None, None)"""
     B = z3.Bool
-    flags = {k: B('wipe_' + k + '_ok') for k in ('mkdir', 'create', 'w0', 'w1', 'w2', 'w3', 'w4', 'wall', 'pos', 'sync')}
-    has_parent, parent_str, parent_empty = B('path_has_parent'), B('parent_is_utf8'), B('parent_is_empty')
+    has_parent = B('path_has_parent') if has_parent is None else has_parent
+    parent_str = B('parent_is_utf8') if parent_str is None else parent_str
+    parent_empty = B('parent_is_empty') if parent_empty is None else parent_empty
     writes = []
 
     def res(flag, okval=UNIT):
@@ -499,6 +585,7 @@ def wipe_image(ck, prog, seed):
            (r'(^|::)OpenOptions::(read|write|append|truncate|create|create_new)$', h_oo_set),
            (r'(^|::)OpenOptions::open(::<.*>)?$', h_oo_open),
            (r'WriteBytesExt>::write_u(16|32|64)', h_write_int), (r'Write>::write_all$', h_write_all), (r'(^|::)from_elem(::<.*>)?$', h_from_elem),
+           (r'(^|::)File::set_len$', lambda ex, st, c, a, f: (ev(st, 'set_len', (a[1],)), res(flags['sync']))[1]),
            (r'Seek>::stream_position$', h_pos), (r'(^|::)File::sync_all$', lambda ex, st, c, a, f: (ev(st, 'sync_all'), res(flags['sync']))[1])]
     ex = Exec(prog, env=env, opaque_calls=[r'Argument(::<.*>)?::new_debug', r'Arguments(::<.*>)?::new', r'(^|::)format$', r'must_use', r'io::Error::new', r'Error::new'])
     segsize = z3.Int('wipe_segsize')
@@ -506,7 +593,18 @@ def wipe_image(ck, prog, seed):
     try:
         outs = ex.run(fn, [Opaque('path'), segsize], State())
     except EngineError as e:
-        ck.inconclusive.append('ShmWriter::wipe not executable by engine M: %s' % e)
+        return None, str(e), None
+    return outs, ex, segsize
+
+
+def wipe_image(ck, prog, seed):
+    """execute ShmWriter::wipe over a file model and decode the bytes it writes"""
+    B = z3.Bool
+    flags = {k: B('wipe_' + k + '_ok') for k in ('mkdir', 'create', 'w0', 'w1', 'w2', 'w3', 'w4', 'wall', 'pos', 'sync')}
+    has_parent, parent_str, parent_empty = B('path_has_parent'), B('parent_is_utf8'), B('parent_is_empty')
+    outs, ex, segsize = _run_wipe(prog, flags, has_parent, parent_str, parent_empty)
+    if outs is None:
+        ck.inconclusive.append('ShmWriter::wipe not executable by engine M: %s' % ex)
         return
     pr = Prover(seed); pr.add(ex.side); pr.add(segsize == 72)
     lay = prog.layouts
